@@ -7,6 +7,7 @@ import math
 import numpy as np
 from hypothesis import strategies as st
 
+from vlib import stubs
 from vlib.harness import Clause, Stats, Violation, drive, run_sharded
 
 from outrank.algorithms.importance_estimator import rank_features_3MR
@@ -20,12 +21,16 @@ RULE = ('Generated: 1..30 distinct feature names (plain, annotated, interaction-
         'assignment of {0,1} to the relevances and to the redundancy and relation of every unordered pair over n<=4 '
         'features (n<=3: x 3 strategies x alpha,beta in {0,1}; n=4: alpha=beta=1 quick, alpha,beta in {0,1} thorough). '
         'Oracle is a validity predicate (any greedy-optimal order is accepted). Non-trivial = n>=3 and the returned '
-        'order is not non-increasing in relevance; distinct = digest of the materialised dictionaries + configuration.')
+        'order is not non-increasing in relevance; distinct = digest of the materialised dictionaries + configuration. '
+        'Pipeline clause: generated CSV files (3-6 feature columns of varying dependence on a binary label, 2-3 mini-batches) are '
+        'ranked in-process with --heuristic MI-numba-3mr; relevance / redundancy / relation dictionaries are rebuilt from '
+        'pairwise_ranks.tsv and 3mr_ranks.tsv must be greedy-valid for them (median, alpha=beta=1).')
 ASSUMPTIONS = ['|values| <= 1e6 and alpha, beta <= 1e3, so no importance overflows (the statement is about finite scores)',
                'pair dictionaries are symmetric-or-absent, so the check does not depend on the (ranked, candidate) lookup orientation',
                'importance is recomputed with math.fsum / exact median; a chosen feature may fall short of the maximum by '
                '1e-9 * (max|rel| + alpha*S_red + beta*S_rel), S = max|value| (x number of ranked features for sum)',
-               'the pipeline-level clause of the design (3mr_ranks.tsv) is not implemented here']
+               'pipeline clause: the three dictionaries are rebuilt by the harness from pairwise_ranks.tsv following the anchored '
+               'construction (min-max normalisation per group); runs whose normalisation is 0/0 are outside the finite domain and counted']
 
 NAME_POOL = ([f'f{i}' for i in range(24)] +
              ['a', 'b', 'c', 'z', 'A', 'user_id', 'label2', 'x AND y', 'u-(3; 100)', 'v-(12; 87)', 'BRAND', 'ANDROID',
@@ -222,6 +227,125 @@ ORACLES = {'C17/greedy-valid': oracle, 'C17/exhaustive': oracle}
 
 # ---- exhaustive small scope ------------------------------------------------------------------------
 
+
+# ---- pipeline clause: 3mr_ranks.tsv against dictionaries rebuilt from pairwise_ranks.tsv ----------------------
+
+@st.composite
+def pipeline_case(draw):
+    return {'k': draw(st.integers(3, 6)), 'rows_per_batch': draw(st.sampled_from([30, 60, 120])), 'batches': draw(st.integers(2, 3)),
+            'seed': draw(st.integers(0, 2**32 - 1)), 'dup': draw(st.booleans()),
+            'order': draw(st.sampled_from([1, 2]))}
+
+
+def oracle_pipeline(case, rec):
+    import csv
+    import os
+    import shutil
+    import tempfile
+
+    import pandas as pd
+
+    from outrank import task_ranking as tr
+    rng = np.random.Generator(np.random.PCG64(int(case['seed'])))
+    k, n = int(case['k']), int(case['rows_per_batch']) * int(case['batches'])
+    label = rng.integers(0, 2, size=n)
+    cols = {}
+    for j in range(k):
+        mode = int(rng.integers(0, 4))
+        if mode == 0:
+            col = np.where(rng.random(n) < 0.5 + 0.1 * j, label, rng.integers(0, 2, size=n))      # informative
+        elif mode == 1:
+            col = rng.integers(0, 2 + j, size=n)                                                    # noise
+        elif mode == 2 and j > 0:
+            prev = cols[f'f{j - 1}']
+            col = np.where(rng.random(n) < 0.8, prev, rng.integers(0, 3, size=n))                   # redundant with previous
+        else:
+            col = (label + rng.integers(0, 2, size=n) * 2) % 4                                      # needs interaction
+        cols[f'f{j}'] = col
+    if case['dup'] and k >= 2:
+        cols['f1'] = cols['f0'].copy()                                                              # exact duplicate: ties
+    names = list(cols) + ['label']
+    tmp = tempfile.mkdtemp(prefix='c17-')
+    old = os.getcwd()
+    orig_pool = tr.Pool
+    try:
+        os.chdir(tmp)
+        os.makedirs('data')
+        with open('data/data.csv', 'w', newline='') as fh:
+            w = csv.writer(fh, lineterminator='\n')
+            w.writerow(names)
+            for i in range(n):
+                w.writerow([f'v{int(cols[c][i])}' for c in cols] + [str(int(label[i]))])
+        args = stubs.make_args(task='ranking', heuristic='MI-numba-3mr', minibatch_size=int(case['rows_per_batch']), subsampling=1,
+                               data_path=os.path.join(tmp, 'data'), data_source='csv-raw', output_folder=os.path.join(tmp, 'out'),
+                               include_cardinality_in_feature_names='False', target_ranking_only='True',
+                               interaction_order=int(case.get('order', 1)))
+        tr.Pool = lambda m=None: stubs.InlinePool()
+        stubs.reset_globals()
+        try:
+            tr.outrank_task_conduct_ranking(args)
+        except SystemExit:
+            pass
+        rpath = os.path.join(tmp, 'out', '3mr_ranks.tsv')
+        if not os.path.exists(rpath):
+            raise Violation('3mr_ranks.tsv was not written', kind='C17/pipeline')
+        ranks = pd.read_csv(rpath, sep='\t', keep_default_na=False, na_values=[])
+        trip = pd.read_csv(os.path.join(tmp, 'out', 'pairwise_ranks.tsv'), sep='\t', keep_default_na=False, na_values=[])
+    finally:
+        tr.Pool = orig_pool
+        os.chdir(old)
+        shutil.rmtree(tmp, ignore_errors=True)
+    REL = ' AND_REL '
+    relv, rela, redu = {}, {}, {}
+    for a, b, sc in zip(trip.FeatureA, trip.FeatureB, trip.Score):
+        sc = float(sc)
+        if b == 'label' and a != 'label':
+            if REL in a:
+                x, y = a.split(REL)
+                rela[(x, y)] = sc
+            else:
+                relv[a] = sc
+        elif a != 'label' and b != 'label' and REL not in a and REL not in b:
+            redu[(a, b)] = sc
+
+    def norm(d):
+        if not d:
+            return {}
+        lo, hi = min(d.values()), max(d.values())
+        if not (hi > lo):
+            return None
+        return {kk: (v - lo) / (hi - lo) for kk, v in d.items()}
+    relv_n, rela_n, redu_n = norm(relv), norm(rela), norm(redu)
+    if relv_n is None or rela_n is None or redu_n is None:
+        rec.cls('excluded:normalisation-0/0')
+        return
+    feats = sorted(relv_n)
+    pos = {f: i for i, f in enumerate(feats)}
+    rel = [relv_n[f] for f in feats]
+    red, rla = {}, {}
+    for (a, b), v in redu_n.items():
+        if a != b:
+            key = (min(pos[a], pos[b]), max(pos[a], pos[b]))
+            if key in red and abs(red[key] - v) > 1e-12:
+                rec.cls('excluded:asymmetric-redundancy')
+                return
+            red[key] = v
+    for (a, b), v in rela_n.items():
+        key = (min(pos[a], pos[b]), max(pos[a], pos[b]))
+        rla[key] = v
+    msg, order_idx = check_output(ranks, feats, rel, red, rla, 'median', 1.0, 1.0)
+    if order_idx is not None:
+        rels = [rel[i] for i in order_idx]
+        rec.nt(any(rels[i] < rels[i + 1] for i in range(len(rels) - 1)), key=case)
+    rec.cls('pipeline:k=%d' % k, 'pipeline:relations=%s' % ('none' if not rla else 'some'))
+    if msg is not None:
+        raise Violation(f'3mr_ranks.tsv is not a greedy-optimal ranking for the dictionaries rebuilt from pairwise_ranks.tsv: {msg}; '
+                        f'features={feats} relevance={rel} output={ranks["Feature"].tolist()}'[:1800], kind='C17/pipeline')
+
+
+ORACLES['C17/pipeline'] = oracle_pipeline
+
+
 def _enum_case(n, relbits, redbits, rlabits, strategy, alpha, beta):
     pairs = list(itertools.combinations(range(n), 2))
     return {'feats': [f'f{i}' for i in range(n)], 'rel': [float(b) for b in relbits],
@@ -302,4 +426,5 @@ def run(ctx):
         res = ctx.run_oracle('C17/exhaustive', oracle, case, Stats())
         ctx.report('C17/exhaustive', case, res[1] if res else 'enumeration mismatch (not reproduced on re-run)')
 
-    drive(ctx, [Clause('C17/greedy-valid', case_strategy, oracle, quick=1500, thorough=80000, quick_shards=4)])
+    drive(ctx, [Clause('C17/greedy-valid', case_strategy, oracle, quick=1500, thorough=80000, quick_shards=4),
+                Clause('C17/pipeline', pipeline_case, oracle_pipeline, quick=48, thorough=1500, quick_shards=8)])
